@@ -199,6 +199,7 @@ struct Ctx {
   std::string out_path, hashes_path, target = "?";
   std::vector<Sub> subs;
   int shard = 0;  // enumerated sub-checks run in shard 0 only
+  bool no_shrink = false;  // schedule-dependent checks: a failing case need not fail again, shrinking would only burn time
   std::map<std::string, double> metrics;  // named maxima (calibration numbers), merged by max in the driver
   // crash bookkeeping
   char cur_sub[128] = {0};
@@ -267,6 +268,7 @@ void add_sub(const std::string &name, int cases, rc::Gen<Case> gen, F fn) {
     params.maxSuccess = std::max(1, (int)(self.cases * scale));
     params.maxSize = max_size;
     params.maxDiscardRatio = 10;
+    params.disableShrinking = ctx().no_shrink;
     rc::detail::TestMetadata md;
     md.id = self.name;
     md.description = self.name;
@@ -427,6 +429,7 @@ inline int main_impl(int argc, char **argv, const char *property, bool exhaustiv
     else if (a == "--only") only = need("--only");
     else if (a == "--prefix") prefix = need("--prefix");
     else if (a == "--shard") c.shard = std::stoi(need("--shard"));
+    else if (a == "--no-shrink") c.no_shrink = true;
     else if (a == "--property") c.property = need("--property");
     else if (a == "--list") {
       for (auto &s : c.subs) printf("%s %d\n", s.name.c_str(), s.cases);
